@@ -70,49 +70,120 @@ def showStatus : Except Err (List Nat) → String
   | .error (.panicAt op) => s!"panic@{op}"
   | .error .panicOut => "panic@out"
 
+/-- Everything parsed from a `run` / `sym` request. -/
+structure Req where
+  pool : Bool
+  nip : Bool
+  nodes : List (Node × Option OpInfo)
+  gcap : List Nat
+  owned : List (Nat × Nat)
+  borrowed : List (Nat × Nat)
+  caps : List (Nat × Option (Nat × Bool))
+  outs : List Nat
+  plan : List Nat
+  lens : List (Nat × List Nat)
+  failOp : Option Nat
+  panicOp : Option Nat
+
+def parseReq (ws : List String) : Option Req := do
+  let pool ← field ws "pool"
+  let nip ← field ws "nip"
+  let nodesStr ← field ws "nodes"
+  let nodes ← (if nodesStr.isEmpty then some [] else (nodesStr.splitOn ";").mapM parseNode)
+  let gcap ← parseNatList "," (← field ws "gcap")
+  let owned ← parsePairs (← field ws "owned")
+  let borrowed ← parsePairs (← field ws "borrowed")
+  let caps ← parseCaps (← field ws "cap")
+  let outs ← parseNatList "," (← field ws "outs")
+  let plan ← parseNatList "," (← field ws "plan")
+  let lens ← parseLens (← field ws "lens")
+  let fail ← field ws "fail"
+  let failOp : Option Nat := if fail.startsWith "e" then (fail.drop 1).toString.toNat? else none
+  -- `p<op>`: the operator itself panicked (abstract-operator observable, see harness)
+  let panicOp : Option Nat := if fail.startsWith "p" then (fail.drop 1).toString.toNat? else none
+  pure { pool := pool == "1", nip := nip == "1", nodes, gcap, owned, borrowed, caps, outs, plan, lens,
+         failOp := if panicOp.isSome then panicOp else failOp, panicOp }
+
+def Req.info (q : Req) (i : Nat) : Option OpInfo := ((q.nodes.map (fun n => n.2))[i]?).join
+
+def statusOf {α : Type} (q : Req) : Except Err α → String
+  | .error (.opErr op) => if q.panicOp == some op then s!"panic@{op}" else s!"err@{op}"
+  | .ok _ => "ok"
+  | .error .planErr => "planerr"
+  | .error (.panicAt op) => s!"panic@{op}"
+  | .error .panicOut => "panic@out"
+
+/-- `run`: bookkeeping trace; values are abstracted to their `len`. -/
+def handleRun (q : Req) : String :=
+  let ops : Ops Nat :=
+    { len := fun v => v
+      inPlaceIdx := fun i => match q.info i with | some x => x.ipIdx | none => []
+      isSubgraph := fun i => match q.info i with | some x => x.sub | none => false
+      run := fun i _ _ => if q.failOp == some i then none else q.lens.lookup i
+      runInPlace := fun i _ _ => if q.failOp == some i then none else q.lens.lookup i }
+  let g : Graph := { nodes := q.nodes.map (fun n => n.1), captures := q.gcap }
+  let run : Run Nat :=
+    { g := g, consts := fun _ => 0
+      borrowed := fun id => q.borrowed.lookup id
+      owned := fun id => q.owned.lookup id
+      usePool := q.pool, neverInPlace := q.nip }
+  let caps0 : Nat → Option (Nat × Bool) := fun id => (q.caps.lookup id).join
+  let res := runPlan ops run caps0 q.plan q.outs
+  statusOf q res.outcome ++ "|" ++
+    joinWith ";" (res.steps.map showStep) ++ "|" ++
+    joinWith "," (res.outs.map (fun p => s!"{p.1}{if p.2 then "t" else "c"}"))
+
+/-! `sym`: the same request with **symbolic values**: a value is `(hash of the term that defines
+it, len)`.  The executor model runs on them (taking in place, moving by value, releasing as in
+`run`), so value flow is exercised; the answer is the hashes of the returned outputs, which the
+harness computes independently with its own naive evaluation.  `evalNaive` is run as well and a
+difference from the executor is reported in the answer. -/
+
+def symP : Nat := 2 ^ 61 - 1
+def mix (a b : Nat) : Nat := (a * 1000003 + b + 12345) % symP
+
+def symRun (q : Req) (i : Nat) (ins : List (Option (Nat × Nat))) (cs : List (Option (Nat × Nat))) :
+    Option (List (Nat × Nat)) :=
+  if q.failOp == some i then none
+  else
+    match q.lens.lookup i with
+    | none => none
+    | some ls =>
+      let h0 := ins.foldl (fun h a => mix h (match a with | some v => v.1 | none => 3)) (mix 4 i)
+      let h := cs.foldl (fun h a => mix h (match a with | some v => v.1 | none => 7)) h0
+      some (ls.zipIdx.map (fun lk => (mix (mix h 5) lk.2, lk.1)))
+
+/-- Put the taken values back at their positions. -/
+def fillSet (ins : List (Option (Nat × Nat))) : List (Nat × (Nat × Nat)) → List (Option (Nat × Nat))
+  | [] => ins
+  | (p, v) :: ts => fillSet (ins.set p (some v)) ts
+
+def handleSym (q : Req) : String :=
+  let ops : Ops (Nat × Nat) :=
+    { len := fun v => v.2
+      inPlaceIdx := fun i => match q.info i with | some x => x.ipIdx | none => []
+      isSubgraph := fun i => match q.info i with | some x => x.sub | none => false
+      run := symRun q
+      runInPlace := fun i taken ins => symRun q i (fillSet ins taken) [] }
+  let g : Graph := { nodes := q.nodes.map (fun n => n.1), captures := q.gcap }
+  let run : Run (Nat × Nat) :=
+    { g := g, consts := fun id => (mix 2 id, 0)
+      borrowed := fun id => (q.borrowed.lookup id).map (fun l => (mix 1 id, l))
+      owned := fun id => (q.owned.lookup id).map (fun l => (mix 1 id, l))
+      usePool := q.pool, neverInPlace := q.nip }
+  let caps0 : Nat → Option ((Nat × Nat) × Bool) := fun _ => none
+  let res := (runPlan ops run caps0 q.plan q.outs).outcome
+  let naive := evalNaive ops run caps0 q.plan q.outs
+  let show1 (o : Except Err (List (Nat × Nat))) : String :=
+    match o with
+    | .ok vs => "ok|" ++ joinWith "," (vs.map (fun v => toString v.1))
+    | e => statusOf q e
+  if show1 res == show1 naive then show1 res else show1 res ++ "|EVALNAIVE-DIFFERS:" ++ show1 naive
+
 def handle (line : String) : String :=
   match words line with
-  | "run" :: ws =>
-    let r : Option String := do
-      let pool ← field ws "pool"
-      let nip ← field ws "nip"
-      let nodesStr ← field ws "nodes"
-      let nodes ← (if nodesStr.isEmpty then some [] else (nodesStr.splitOn ";").mapM parseNode)
-      let gcap ← parseNatList "," (← field ws "gcap")
-      let owned ← parsePairs (← field ws "owned")
-      let borrowed ← parsePairs (← field ws "borrowed")
-      let caps ← parseCaps (← field ws "cap")
-      let outs ← parseNatList "," (← field ws "outs")
-      let plan ← parseNatList "," (← field ws "plan")
-      let lens ← parseLens (← field ws "lens")
-      let fail ← field ws "fail"
-      let failOp : Option Nat := if fail.startsWith "e" then (fail.drop 1).toString.toNat? else none
-      -- `p<op>`: the operator itself panicked (abstract-operator observable, see harness)
-      let panicOp : Option Nat := if fail.startsWith "p" then (fail.drop 1).toString.toNat? else none
-      let failOp := if panicOp.isSome then panicOp else failOp
-      let infos : List (Option OpInfo) := nodes.map (fun n => n.2)
-      let info (i : Nat) : Option OpInfo := (infos[i]?).join
-      let ops : Ops Nat :=
-        { len := fun v => v
-          inPlaceIdx := fun i => match info i with | some x => x.ipIdx | none => []
-          isSubgraph := fun i => match info i with | some x => x.sub | none => false
-          run := fun i _ _ => if failOp == some i then none else lens.lookup i
-          runInPlace := fun i _ _ => if failOp == some i then none else lens.lookup i }
-      let g : Graph := { nodes := nodes.map (fun n => n.1), captures := gcap }
-      let run : Run Nat :=
-        { g := g, consts := fun _ => 0
-          borrowed := fun id => borrowed.lookup id
-          owned := fun id => owned.lookup id
-          usePool := pool == "1", neverInPlace := nip == "1" }
-      let caps0 : Nat → Option (Nat × Bool) := fun id => (caps.lookup id).join
-      let res := runPlan ops run caps0 plan outs
-      let status := match res.outcome, panicOp with
-        | .error (.opErr op), some p => if op == p then s!"panic@{op}" else showStatus res.outcome
-        | o, _ => showStatus o
-      pure (status ++ "|" ++
-        joinWith ";" (res.steps.map showStep) ++ "|" ++
-        joinWith "," (res.outs.map (fun p => s!"{p.1}{if p.2 then "t" else "c"}")))
-    r.getD "bad-request"
+  | "run" :: ws => match parseReq ws with | some q => handleRun q | none => "bad-request"
+  | "sym" :: ws => match parseReq ws with | some q => handleSym q | none => "bad-request"
   | _ => "bad-request"
 
 end RtenVerif.Driver.C02
